@@ -107,6 +107,9 @@ struct Case {
   // oracle state
   std::unique_ptr<PerItem[]> items;
   std::unique_ptr<Obj[]> objs;
+  // C06 worklist push -> pop edge: plain word written by the pusher before ctx.push(child), read by
+  // whoever pops the child (registered as TSan payload in the tsan build)
+  std::unique_ptr<uint64_t[]> itemPayload;
   TL tls[64];
   std::atomic<int> loopActive{0};
   std::atomic<uint64_t> sinceCommit{0};
@@ -175,6 +178,9 @@ struct Case {
     }
     const Prog& p = prog[it.id];
     PerItem& pi   = items[it.id];
+    if (itemPayload[it.id] != it.tag)
+      report(key("C06", "stale-payload-after-pop"), "item %u popped with tag %u but the word written before its push reads %" PRIu64,
+             it.id, it.tag, itemPayload[it.id]);
     // (c) the item must carry the tag of the parent's committing attempt
     if (p.parent != NONE) {
       uint32_t ct = items[p.parent].commitTag.load(std::memory_order_relaxed);
@@ -224,8 +230,10 @@ struct Case {
     tl.nOwned = 0;
 
     // pushes before the acquires (discarded if this attempt aborts)
-    for (unsigned i = 0; i < p.pushBefore && i < p.childCount; ++i)
+    for (unsigned i = 0; i < p.pushBefore && i < p.childCount; ++i) {
+      itemPayload[p.childBegin + i] = tag;
       ctx.push(mk(p.childBegin + i, tag));
+    }
 
     // per-iteration allocation with canary
     char* pia_mem = nullptr;
@@ -329,8 +337,10 @@ struct Case {
       report(key("C01", "operator-outside-loop"), "tid %u item %u at commit point", tid, it.id);
 
     // pushes after the commit point
-    for (unsigned i = p.pushBefore; i < p.childCount; ++i)
+    for (unsigned i = p.pushBefore; i < p.childCount; ++i) {
+      itemPayload[p.childBegin + i] = tag;
       ctx.push(mk(p.childBegin + i, tag));
+    }
     progress();
   }
 
